@@ -75,7 +75,7 @@ fn build(seed: u64, i: usize) -> Built {
     let mut knobs = Knobs::random(&mut r_proj);
     knobs.shadowing = true; // CFG-stage reports are what the cache transports
     knobs.components = true;
-    let shape = ProjectShape { max_files: 3, max_defs: 6, with_main: true, pragma_always: false, name_suffix: String::new() };
+    let shape = ProjectShape { max_files: 3, min_defs: 1, max_defs: 6, with_main: true, pragma_always: false, name_suffix: String::new() };
     let mut project = gen::gen_project(&mut r_proj, &knobs, &shape);
     if r_proj.chance(1, 3) {
         project.named = (0..project.files.len()).collect();
@@ -113,6 +113,7 @@ struct Res {
     lattice_points: usize,
     sarif_checked: usize,
     sarif_faults: usize,
+    sarif_benign: usize,
     fp: u64,
     sim_ns: i64,
     nontrivial: bool,
@@ -399,7 +400,20 @@ fn one(runner: &Runner, seed: u64, i: usize, keys: usize, lattice_budget: usize)
             c.plan.faults.push(Fault { call: call.into(), errno, occurrence: 1, suffix: "out.sarif".into() });
             c.world.files.remove("out.sarif");
         }
+        // legal but unusual behaviour of the output file: write(2) takes fewer bytes than
+        // offered, or is interrupted; the document must come out complete all the same
+        if sarif && !sarif_fault && r.chance(1, 3) {
+            if r.chance(2, 3) {
+                c.plan.shortwrite = 1 + r.below(600) as i64;
+            }
+            if r.chance(1, 2) {
+                c.plan.faults.push(Fault { call: "write".into(), errno: -1, occurrence: 1 + r.below(3) as i64, suffix: "out.sarif".into() });
+            }
+        }
         let Ok(o) = runner.run(&c) else { continue };
+        if o.events.iter().any(|e| e.call == "write" && e.path.ends_with("out.sarif") && e.result_num().map(|n| n == -(libc::EINTR as i64) || (c.plan.shortwrite > 0 && n == c.plan.shortwrite)).unwrap_or(false)) {
+            res.sarif_benign += 1;
+        }
         res.runs += 1;
         res.sim_ns += o.sim_ns();
         if crashed(&o) {
@@ -494,9 +508,10 @@ pub fn run(env: &Env) -> i32 {
             ("pass-stage report", stages.get("pass").copied().unwrap_or(0)),
             ("project with two or more analysis orders", results.iter().filter(|r| r.orders >= 2).count()),
             ("SARIF create/write fault fired", results.iter().map(|r| r.sarif_faults).sum::<usize>()),
+            ("SARIF short or interrupted write fired", results.iter().map(|r| r.sarif_benign).sum::<usize>()),
         ],
     );
-    cov.insert("fault_kinds_fired".into(), json!({"hash-key": runs, "clock-fine": runs, "sarif-create-or-write-fails": results.iter().map(|r| r.sarif_faults).sum::<usize>()}));
+    cov.insert("fault_kinds_fired".into(), json!({"hash-key": runs, "clock-fine": runs, "sarif-create-or-write-fails": results.iter().map(|r| r.sarif_faults).sum::<usize>(), "sarif-short-or-interrupted-write": results.iter().map(|r| r.sarif_benign).sum::<usize>()}));
     cov.insert("lattice_points_checked".into(), json!(results.iter().map(|r| r.lattice_points).sum::<usize>()));
     cov.insert("sarif_files_checked".into(), json!(results.iter().map(|r| r.sarif_checked).sum::<usize>()));
     cov.insert("sarif_write_faults_fired".into(), json!(results.iter().map(|r| r.sarif_faults).sum::<usize>()));
